@@ -54,41 +54,27 @@ theorem lenOf_le (op op2 : Nat) (h1 : op < 256) (h2 : op2 < 256) : lenOf op op2 
 
 /-! ### `RetrieveData` -/
 
-theorem retrieveDataF_lt (img : Image) (lower : Bool) : ∀ (fuel a count : Nat) (bs : List Nat) (e : List String),
-    retrieveDataF img lower fuel a count = (some bs, e) → ∀ b ∈ bs, b < 256 := by
-  intro fuel
-  induction fuel with
-  | zero =>
-    intro a count bs e h b hb
-    simp [retrieveDataF] at h
-    rw [h.1] at hb; cases hb
-  | succ k ih =>
-    intro a count bs e h b hb
-    unfold retrieveDataF at h
-    by_cases hc : count = 0
-    · simp [hc] at h
-      rw [h.1] at hb; cases hb
-    · simp only [hc, if_false] at h
-      generalize (if a ≤ 0x10000 then min count (0x10000 - a) else count) = trans at h
-      cases hr : retrieve img a trans with
-      | none => simp [hr] at h
-      | some part =>
-        simp only [hr] at h
-        cases hrest : retrieveDataF img lower k ((a + trans) % 0x10000) (count - trans) with
-        | mk o e2 =>
-          cases o with
-          | none => simp [hrest] at h
-          | some rest =>
-            simp only [hrest, Prod.mk.injEq, Option.some.injEq] at h
-            rw [← h.1] at hb
-            rcases List.mem_append.mp hb with h1 | h1
-            · obtain ⟨u, _, rfl⟩ := List.mem_map.mp h1
-              exact u.toNat_lt
-            · exact ih _ _ rest e2 hrest b h1
+/-- a request that `RetrieveData` answers ends inside the address space, was answered by `RetrieveCodeFromChunkList` with exactly
+these bytes, and no message was written (since the repair of deco87c800.c: no continuation at address 0 behind 0FFFFh) -/
+theorem retrieveData_some (img : Image) (lower : Bool) (a count : Nat) (ds : List Nat) (e : List String)
+    (h : retrieveData img lower a count = (some ds, e)) :
+    a + count ≤ 0x10000 ∧ e = [] ∧ ∃ bs, retrieve img a count = some bs ∧ ds = bs.map UInt8.toNat := by
+  unfold retrieveData at h
+  by_cases hb : a + count > 0x10000
+  · simp [hb] at h
+  · simp only [hb, if_false] at h
+    cases hr : retrieve img a count with
+    | none => simp [hr] at h
+    | some bs =>
+      simp only [hr, Prod.mk.injEq, Option.some.injEq] at h
+      exact ⟨by omega, h.2.symm, bs, rfl, h.1.symm⟩
 
 theorem retrieveData_lt (img : Image) (lower : Bool) (a count : Nat) (bs : List Nat) (e : List String)
-    (h : retrieveData img lower a count = (some bs, e)) : ∀ b ∈ bs, b < 256 :=
-  retrieveDataF_lt img lower _ a count bs e h
+    (h : retrieveData img lower a count = (some bs, e)) : ∀ b ∈ bs, b < 256 := by
+  obtain ⟨_, _, us, _, rfl⟩ := retrieveData_some img lower a count bs e h
+  intro b hb
+  obtain ⟨u, _, rfl⟩ := List.mem_map.mp hb
+  exact u.toNat_lt
 
 theorem getD_lt (bs : List Nat) (h : ∀ b ∈ bs, b < 256) (i : Nat) : bs.getD i 0 < 256 := by
   rw [List.getD_eq_getElem?_getD]
@@ -96,60 +82,35 @@ theorem getD_lt (bs : List Nat) (h : ∀ b ∈ bs, b < 256) (i : Nat) : bs.getD 
   | none => simp
   | some x => simp; exact h x (List.mem_of_getElem? hg)
 
-/-- one byte, not at the wrap point: `RetrieveData` is `RetrieveCodeFromChunkList` -/
-theorem retrieveData_one (img : Image) (lower : Bool) (a : Nat) (ha : a ≠ 0x10000) :
+/-- a request that reaches beyond the end of the 64K address space fails with the message, whatever the image holds -/
+theorem retrieveData_beyond (img : Image) (lower : Bool) (a count : Nat) (h : a + count > 0x10000) :
+    retrieveData img lower a count = (none, ["cannot retrieve code @ 0x" ++ hexString lower a 0]) := by
+  simp [retrieveData, h]
+
+/-- one byte below the end of the address space: `RetrieveData` is `RetrieveCodeFromChunkList` (for `a ≥ 0x10000` the result is the
+failure message: `retrieveData_beyond`) -/
+theorem retrieveData_one (img : Image) (lower : Bool) (a : Nat) (ha : a < 0x10000) :
     retrieveData img lower a 1 =
       match retrieve img a 1 with
       | none => (none, ["cannot retrieve code @ 0x" ++ hexString lower a 0])
       | some bs => (some (bs.map UInt8.toNat), []) := by
-  have htrans : (if a ≤ 0x10000 then min 1 (0x10000 - a) else 1) = 1 := by
-    split <;> omega
-  simp only [retrieveData, retrieveDataF, htrans]
-  cases retrieve img a 1 <;> simp
+  have : ¬ (a + 1 > 0x10000) := by omega
+  simp only [retrieveData, this, if_false]
+  cases retrieve img a 1 <;> rfl
 
-/-- one byte at 0x10000 is fetched from address 0 -/
-theorem retrieveData_wrap (img : Image) (lower : Bool) (h00 : ¬ inImage img 0) :
-    (retrieveData img lower 0x10000 1).1 = none := by
-  have hz : retrieve img 0x10000 0 = some [] := rfl
-  have h0 := retrieve_none_of_not_inImage img 0 1 (by omega) h00
-  simp [retrieveData, retrieveDataF, hz, h0]
+/-- one byte at 0x10000 (where the loop of the former `RetrieveData` continued at address 0) is not fetched, whatever lies at
+address 0 -/
+theorem retrieveData_no_wrap (img : Image) (lower : Bool) : (retrieveData img lower 0x10000 1).1 = none := by
+  rw [retrieveData_beyond img lower 0x10000 1 (by omega)]
 
-/-- the bytes of a request `RetrieveData` answers are bytes of the loaded image, as far as they lie below the end of the 64K address
-space (behind it `RetrieveData` continues at address 0) – all of them when address 0 is no byte of the image (the continuation then
-fails).  Since the repair of `RetrieveCodeFromChunkList`; before it a request running past the end of a chunk was completed from the
-same chunk again. -/
+/-- the bytes of a request `RetrieveData` answers are bytes of the loaded image and addresses of the 64K address space - for every
+image (the former hypothesis "the byte lies below 0x10000, or address 0 is not loaded" is gone with the wrap) -/
 theorem retrieveData_inImage (img : Image) (lower : Bool) (y n : Nat) (ds : List Nat) (e : List String)
     (h : retrieveData img lower y n = (some ds, e)) :
-    ∀ k, k < n → (y + k < 0x10000 ∨ ¬ inImage img 0) → inImage img (y + k) := by
-  intro k hk hw
-  have hc : n ≠ 0 := by omega
-  unfold retrieveData at h
-  rw [show n + 2 = (n + 1) + 1 from rfl] at h
-  unfold retrieveDataF at h
-  simp only [hc, if_false] at h
-  generalize htr : (if y ≤ 0x10000 then min n (0x10000 - y) else n) = trans at h
-  cases hr : retrieve img y trans with
-  | none => simp [hr] at h
-  | some bs =>
-    have hin := (retrieve_some img y trans bs hr).2
-    by_cases hkt : k < trans
-    · exact hin k hkt
-    · exfalso
-      have hle : y ≤ 0x10000 := by
-        by_cases hle : y ≤ 0x10000
-        · exact hle
-        · simp [hle] at htr; omega
-      simp only [hle, if_true] at htr
-      have hlt : trans < n := by omega
-      have h0 : (y + trans) % 0x10000 = 0 := by omega
-      rcases hw with hw | hw
-      · omega
-      · simp only [hr, h0] at h
-        unfold retrieveDataF at h
-        have hc2 : n - trans ≠ 0 := by omega
-        simp only [hc2, if_false, Nat.zero_le, if_true] at h
-        have hn := retrieve_none_of_not_inImage img 0 (min (n - trans) (0x10000 - 0)) (by omega) hw
-        simp [hn] at h
+    ∀ k, k < n → inImage img (y + k) ∧ y + k < 0x10000 := by
+  intro k hk
+  obtain ⟨hle, _, bs, hr, _⟩ := retrieveData_some img lower y n ds e h
+  exact ⟨(retrieve_some img y n bs hr).2 k hk, by omega⟩
 
 end AslModel.Dis.M87C
 
@@ -158,35 +119,20 @@ open AslModel.Dis
 
 /-! ### the length `raw` reports -/
 
-theorem retrieveDataF_none_msg (img : Image) (lower : Bool) : ∀ (fuel a count : Nat) (e : List String),
-    retrieveDataF img lower fuel a count = (none, e) → e ≠ [] := by
-  intro fuel
-  induction fuel with
-  | zero => intro a count e h; simp [retrieveDataF] at h
-  | succ k ih =>
-    intro a count e h
-    unfold retrieveDataF at h
-    by_cases hc : count = 0
-    · simp [hc] at h
-    · simp only [hc, if_false] at h
-      generalize (if a ≤ 0x10000 then min count (0x10000 - a) else count) = trans at h
-      cases hr : retrieve img a trans with
-      | none =>
-        simp only [hr, Prod.mk.injEq, true_and] at h
-        rw [← h]; simp
-      | some part =>
-        simp only [hr] at h
-        cases hrest : retrieveDataF img lower k ((a + trans) % 0x10000) (count - trans) with
-        | mk o e2 =>
-          cases o with
-          | some rest => simp [hrest] at h
-          | none =>
-            simp only [hrest, Prod.mk.injEq, true_and] at h
-            rw [← h]; exact ih _ _ e2 hrest
+/-- a failed request writes a message (exactly one line, with the first address of the request) -/
+theorem retrieveData_none_msg' (img : Image) (lower : Bool) (a count : Nat) (e : List String)
+    (h : retrieveData img lower a count = (none, e)) : e = ["cannot retrieve code @ 0x" ++ hexString lower a 0] := by
+  unfold retrieveData at h
+  by_cases hb : a + count > 0x10000
+  · simp only [hb, if_true, Prod.mk.injEq, true_and] at h; exact h.symm
+  · simp only [hb, if_false] at h
+    cases hr : retrieve img a count with
+    | none => simp only [hr, Prod.mk.injEq, true_and] at h; exact h.symm
+    | some bs => simp [hr] at h
 
 theorem retrieveData_none_msg (img : Image) (lower : Bool) (a count : Nat) (e : List String)
-    (h : retrieveData img lower a count = (none, e)) : e ≠ [] :=
-  retrieveDataF_none_msg img lower _ a count e h
+    (h : retrieveData img lower a count = (none, e)) : e ≠ [] := by
+  rw [retrieveData_none_msg' img lower a count e h]; simp
 
 theorem finish_len (lower : Bool) (syms : Syms) (a op pl : Nat) (f : Form) (data : List Nat) (pfx : String) (v : Option Nat) :
     (finish lower syms a op pl f data pfx v).1.len = pl + f.n := by
@@ -241,8 +187,10 @@ end AslModel.Dis.M87C
 namespace AslModel.Dis.M87C
 open AslModel.Dis
 
-theorem retrieveData_zero (img : Image) (lower : Bool) (a : Nat) : retrieveData img lower a 0 = (some [], []) := by
-  simp [retrieveData, retrieveDataF]
+/-- no byte wanted, at or below the end of the address space: success without a fetch -/
+theorem retrieveData_zero (img : Image) (lower : Bool) (a : Nat) (ha : a ≤ 0x10000) : retrieveData img lower a 0 = (some [], []) := by
+  simp [retrieveData, retrieve, retrieveF]
+  exact ha
 
 /-- What `raw` reports for an instruction line (`AsData` false, `DataSize` -1): length 0 (nothing decoded), or the length the two
 opcode bytes decide (length 0 only together with a message) – the first one fetched at `a`, the second one (if the first is a prefix) fetched at `a + prefixLen`; and if
@@ -269,9 +217,10 @@ theorem raw_spec (img : Image) (lower : Bool) (syms : Syms) (a : Nat) :
       cases hf : form1 op with
       | unknown =>
         right
+        have hz := retrieveData_zero img lower (a + 1) (by have := (retrieveData_some img lower a 1 ops e h1).1; omega)
         refine ⟨ops, e, op, rfl, hopd.symm, ⟨0, by omega, Or.inl (by simp [prefixLen, hf]), ?_⟩, ?_⟩
-        · simp [dataPart, retrieveData_zero, lenOf, hf]
-        · simp [dataPart, retrieveData_zero]
+        · simp [dataPart, hz, lenOf, hf]
+        · simp [dataPart, hz]
       | plain f =>
         simp only [hf, Bool.and_eq_true, decide_eq_true_eq, Bool.or_eq_true, bne_iff_ne, ne_eq, beq_iff_eq] at hok
         simp only
@@ -411,8 +360,9 @@ theorem raw_covered (img : Image) (lower : Bool) (syms : Syms) (a : Nat) :
       cases hf : form1 op with
       | unknown =>
         simp only [hf] at hx2
+        have hz := retrieveData_zero img lower (a + 1) (by have := (retrieveData_some img lower a 1 ops e h1).1; omega)
         have hl : (dataPart img lower syms a op false (-1)).info.len = 1 := by
-          simp [dataPart, retrieveData_zero]
+          simp [dataPart, hz]
         rw [hl] at hx2
         exact hfirst x hx1 hx2
       | plain f =>
